@@ -166,7 +166,9 @@ func (x *Exec) checkCallEvent(fr *Frame, st *State, key string, c *ssa.CallCommo
 	if x.rootC == nil {
 		return
 	}
-	short := key[strings.LastIndex(key, "/")+1:]
+	if x.localTarget != nil && (c != x.localTarget || !fr.isRoot) {
+		return // local mode: only the site under verification is checked in this run
+	}
 	if fr.isRoot {
 		x.tokenEvent(st, st, "call", key, nil)
 	}
@@ -175,7 +177,7 @@ func (x *Exec) checkCallEvent(fr *Frame, st *State, key string, c *ssa.CallCommo
 			continue
 		}
 		want := cl.Name[5:]
-		if !(short == want || strings.HasSuffix(short, "."+want) || key == want) {
+		if !x.callPatternMatches(want, key, c) {
 			continue
 		}
 		env := x.newSpecEnv(fr, st, x.rootPre)
@@ -194,4 +196,29 @@ func (x *Exec) checkCallEvent(fr *Frame, st *State, key string, c *ssa.CallCommo
 		x.emit(st, "callback", fmt.Sprintf("%s:%s", cl.Name, cl.Label), g, false, cl.Line)
 		st.ghost["$called:"+want] = TTrue
 	}
+	if x.localTarget != nil && c == x.localTarget && fr.isRoot {
+		st.dead = true // local mode: the site has been checked, the path ends here
+	}
+}
+
+// callPatternMatches: a "call:" pattern is a function name (suffix match at a name boundary),
+// optionally followed by "/Seg": then the receiver (first argument) must have been obtained through a
+// field named Seg (e.g. "(*Protocol).Start/Server" matches c.blockFetch.Server.Start(), where Start is
+// promoted from an embedded *Protocol).
+func (x *Exec) callPatternMatches(pattern, key string, c *ssa.CallCommon) bool {
+	seg := ""
+	if i := strings.LastIndex(pattern, "/"); i >= 0 && !strings.Contains(pattern[i:], ")") && !strings.Contains(pattern[i:], ".") {
+		pattern, seg = pattern[:i], pattern[i+1:]
+	}
+	short := key[strings.LastIndex(key, "/")+1:]
+	if !(short == pattern || strings.HasSuffix(short, "."+pattern) || key == pattern) {
+		return false
+	}
+	if seg == "" {
+		return true
+	}
+	if len(c.Args) == 0 {
+		return false
+	}
+	return strings.Contains("."+x.describeFuncSource(c.Args[0])+".", "."+seg+".")
 }
